@@ -1,7 +1,7 @@
 (* C09: a topology Reset returns the responder to fresh-start behaviour.
    Statements only: each theorem restates the full type of a lemma proved in coq/proofs and is closed by
    `exact`; Print Assumptions beneath.  Regenerate with bin/genprops.py after a lemma changes. *)
-From LLTD Require Import BlockFun PropsMapper.
+From LLTD Require Import BlockFun PropsMapper SystemRefinement.
 
 Theorem C09_normalisation_step :
   forall (ctx : N) (c : pcfg) (g : gcfg) (mtu : N) (s : ist) (buf : list N),
@@ -40,3 +40,29 @@ Theorem C09_one_run :
   snd (f_run ctx c g mtu s hist) ++ snd (f_run ctx c g mtu fresh cont).
 Proof. exact C09_history_run. Qed.
 Print Assumptions C09_one_run.
+
+Theorem C09_on_the_buffer_level_model :
+  forall (junk : N) (cfgs : N -> pcfg) (g : gcfg) (mtus : N -> N),
+  cfgs_nominal cfgs mtus ->
+  forall (ctx : N) (hist : list (list N)) (rbuf : list N) (h : hdr) (cont : list (list N))
+  (r : registry) (w : world) (bl : nat) (bb : N) (r0 : registry) (w0 : world)
+  (bl0 : nat) (bb0 : N),
+  Forall (buf_len cfgs ctx) hist ->
+  buf_len cfgs ctx rbuf ->
+  Forall (buf_len cfgs ctx) cont ->
+  parse_hdr rbuf = Some h ->
+  h_tos h = tos_discovery ->
+  h_opc h = opcode_reset ->
+  BlockSafe.ledger_reg bl bb r w ->
+  reg_find r0 ctx = None ->
+  BlockSafe.ledger_reg bl0 bb0 r0 w0 ->
+  exists
+  (r1 : registry) (w1 : world) (r2 : registry) (w2 : world) (r3 : registry)
+  (w3 : world) (acts : list action),
+  BlockSafe.run_frames no_fail no_fail junk cfgs g r (on ctx (hist ++ [rbuf])) w = Ok r1 w1 /\
+  BlockSafe.run_frames no_fail no_fail junk cfgs g r1 (on ctx cont) w1 = Ok r2 w2 /\
+  BlockSafe.run_frames no_fail no_fail junk cfgs g r0 (on ctx cont) w0 = Ok r3 w3 /\
+  w_trace w2 = rev acts ++ w_trace w1 /\
+  w_trace w3 = rev acts ++ w_trace w0 /\ acts = snd (f_run ctx (cfgs ctx) g (mtus ctx) fresh cont).
+Proof. exact C09_buffer_level. Qed.
+Print Assumptions C09_on_the_buffer_level_model.
